@@ -1,80 +1,64 @@
 // mode `format` (property C08): formatter / parser round trip on the real code.
 //
 //   input : {src}
-//   output: (perr) | (panic parse)                       the source itself does not parse (case is skipped)
-//         | (fmt "<text1>" <reparse> <same> <idem> <digest1> <digest2> (delta (<Node> <n>)*) (diff "<l1>" "<l2>") "<text2>")
-//       text1   = Formatter::new().format(&tree1)                      (or (fmt-panic) instead of the whole form)
+//   output: (perr) | (panic parse)                       the source itself does not parse (the case is skipped)
+//         | (fmt-panic (feat ...))                        Formatter::format panicked on a tree the parser produced
+//         | (fmt "<text1>" <reparse> <same> <idem> <digest1> <digest2> (feat <atom>*) (delta (<Node> <n>)*) (diff "<path>" "<v1>" "<v2>") "<text2>")
+//       text1   = Formatter::new().format(&tree1)
 //       reparse = ok | perr | panic        result of parse(text1)
-//       same    = 1 iff tree2 == tree1 after erasing source positions (see `normalise`)
+//       same    = 1 iff tree2 == tree1 after erasing source positions (see `strip`)
 //       idem    = 1 iff format(tree2) == text1
-//       digest  = FNV-1a 64 of the normalised `{:#?}` rendering of the tree (0 when there is no tree)
-//       delta   = node-kind census of tree2 minus census of tree1 (only non-zero entries, sorted by name, at most 16):
-//                 a node kind is a capitalised Rust identifier followed by " {" or "(" in the Debug rendering,
-//                 or the token kind in front of `:"`.
-//       diff    = first differing normalised line of tree1 / tree2 ("" "" when equal or no tree2)
+//       digest  = FNV-1a 64 (>>1) of the position-free JSON of the tree (0 when there is no tree)
+//       feat    = the syntactic features of tree1 (sorted, distinct): every enum-variant / node tag that occurs
+//                 (externally tagged serde keys and unit-variant strings, e.g. Matrix, Comment, Scientific, Subset),
+//                 every token kind as `tok-<Kind>`, plus the structural features computed in `features` below
+//                 (multirow, named-arg, range-inc, empty-map, kind-record, kind-table, trailing-comment, str-special, ...)
+//       delta   = tag census of tree2 minus tag census of tree1 (non-zero entries, sorted, at most 16)
+//       diff    = first position (JSON path) where the two position-free trees differ, with both values (clipped)
 //       text2   = format(tree2) when it differs from text1, "" otherwise
 //
-// Positions: every node derives Debug; Token prints as `Kind:"chars":[r:c, r:c)` and SourceRange as `[r:c, r:c)`.
-// `normalise` erases every `[r:c, r:c)` outside string literals (and the `:` in front of it), nothing else:
-// the grammar keeps no separate whitespace tokens in the tree except inside paragraph text, where they are content.
+// Positions: the AST derives Serialize (mech-core feature `serde`); every Token is {kind, chars, src_range} and every
+// position is a `src_range` / `error_range` field or a {start:{row,col},end:{row,col}} object.  `strip` removes exactly
+// those, and rewrites a token to the string "<Kind>:<chars>".  The grammar keeps no whitespace tokens in code nodes;
+// whitespace inside paragraph text is content and is compared.
 use crate::canon::*;
 use mech_core::*;
 use mech_syntax::*;
 use serde_json::Value as J;
-use std::collections::BTreeMap;
+use std::collections::{BTreeMap, BTreeSet};
 use std::panic::{catch_unwind, AssertUnwindSafe};
 
-fn is_range_at(b: &[u8], i: usize) -> Option<usize> {
-  // matches "[d+:d+, d+:d+)" at i, returns index after it
-  let mut j = i;
-  if j >= b.len() || b[j] != b'[' { return None; }
-  j += 1;
-  let num = |j: &mut usize| -> bool { let s = *j; while *j < b.len() && b[*j].is_ascii_digit() { *j += 1; } *j > s };
-  if !num(&mut j) { return None; }
-  if j >= b.len() || b[j] != b':' { return None; } j += 1;
-  if !num(&mut j) { return None; }
-  if j + 1 >= b.len() || b[j] != b',' || b[j + 1] != b' ' { return None; } j += 2;
-  if !num(&mut j) { return None; }
-  if j >= b.len() || b[j] != b':' { return None; } j += 1;
-  if !num(&mut j) { return None; }
-  if j >= b.len() || b[j] != b')' { return None; }
-  Some(j + 1)
+fn is_range_obj(v: &J) -> bool {
+  if let J::Object(m) = v {
+    if m.len() == 2 {
+      if let (Some(J::Object(s)), Some(J::Object(e))) = (m.get("start"), m.get("end")) {
+        return s.len() == 2 && s.contains_key("row") && s.contains_key("col") && e.len() == 2 && e.contains_key("row") && e.contains_key("col");
+      }
+    }
+  }
+  false
 }
 
-pub fn normalise(dbg: &str) -> String {
-  let b = dbg.as_bytes();
-  let mut out: Vec<u8> = Vec::with_capacity(b.len());
-  let mut i = 0;
-  while i < b.len() {
-    let c = b[i];
-    if c == b'"' {
-      // copy a string literal verbatim
-      out.push(c); i += 1;
-      while i < b.len() {
-        let d = b[i];
-        out.push(d); i += 1;
-        if d == b'\\' && i < b.len() { out.push(b[i]); i += 1; continue; }
-        if d == b'"' { break; }
+pub fn strip(v: &J) -> J {
+  match v {
+    J::Object(m) => {
+      if m.len() == 3 && m.contains_key("kind") && m.contains_key("chars") && m.contains_key("src_range") {
+        if let (Some(J::String(k)), Some(J::Array(cs))) = (m.get("kind"), m.get("chars")) {
+          let s: String = cs.iter().map(|c| c.as_str().unwrap_or("?")).collect();
+          return J::String(format!("{}:{}", k, s));
+        }
       }
-      continue;
-    }
-    if c == b'\'' && i + 2 < b.len() {
-      // char literal 'x' or '\x' (Vec<char> fields)
-      let mut j = i + 1;
-      if b[j] == b'\\' { j += 1; }
-      // skip one UTF-8 scalar
-      j += 1; while j < b.len() && (b[j] & 0xC0) == 0x80 { j += 1; }
-      if j < b.len() && b[j] == b'\'' { out.extend_from_slice(&b[i..=j]); i = j + 1; continue; }
-    }
-    if c == b'[' {
-      if let Some(j) = is_range_at(b, i) {
-        if out.last() == Some(&b':') { out.pop(); }
-        out.extend_from_slice(b"@"); i = j; continue;
+      let mut o = serde_json::Map::new();
+      for (k, x) in m.iter() {
+        if k == "src_range" || k == "error_range" { continue; }
+        if is_range_obj(x) { continue; }
+        o.insert(k.clone(), strip(x));
       }
+      J::Object(o)
     }
-    out.push(c); i += 1;
+    J::Array(a) => J::Array(a.iter().filter(|x| !is_range_obj(x)).map(strip).collect()),
+    _ => v.clone(),
   }
-  String::from_utf8_lossy(&out).to_string()
 }
 
 fn fnv(s: &str) -> u64 {
@@ -83,30 +67,102 @@ fn fnv(s: &str) -> u64 {
   h >> 1
 }
 
-fn census(norm: &str) -> BTreeMap<String, i64> {
-  let mut m: BTreeMap<String, i64> = BTreeMap::new();
-  let b = norm.as_bytes();
-  let mut i = 0;
-  while i < b.len() {
-    let c = b[i];
-    if c == b'"' {
-      i += 1;
-      while i < b.len() { let d = b[i]; i += 1; if d == b'\\' { i += 1; continue; } if d == b'"' { break; } }
-      continue;
-    }
-    if c.is_ascii_uppercase() && (i == 0 || !(b[i - 1].is_ascii_alphanumeric() || b[i - 1] == b'_')) {
-      let s = i;
-      while i < b.len() && (b[i].is_ascii_alphanumeric() || b[i] == b'_') { i += 1; }
-      let name = &norm[s..i];
-      let follows = if i < b.len() { b[i] } else { b' ' };
-      let is_node = follows == b'(' || (follows == b' ' && i + 1 < b.len() && b[i + 1] == b'{') || (follows == b':' && i + 1 < b.len() && b[i + 1] == b'"');
-      if is_node { *m.entry(name.to_string()).or_insert(0) += 1; }
-      continue;
-    }
-    i += 1;
-  }
-  m
+fn is_tag(s: &str) -> bool {
+  let mut cs = s.chars();
+  match cs.next() { Some(c) if c.is_ascii_uppercase() => cs.all(|c| c.is_ascii_alphanumeric()), _ => false }
 }
+
+// tag census of a stripped tree: externally tagged enum keys, unit variants, token kinds
+fn census(v: &J, m: &mut BTreeMap<String, i64>) {
+  match v {
+    J::Object(o) => for (k, x) in o.iter() {
+      if is_tag(k) { *m.entry(k.clone()).or_insert(0) += 1; }
+      census(x, m);
+    },
+    J::Array(a) => for x in a { census(x, m); },
+    J::String(s) => {
+      if let Some(p) = s.find(':') {
+        if is_tag(&s[..p]) { *m.entry(format!("tok-{}", &s[..p])).or_insert(0) += 1; return; }
+      }
+      if is_tag(s) { *m.entry(s.clone()).or_insert(0) += 1; }
+    }
+    _ => {}
+  }
+}
+
+fn features(v: &J, f: &mut BTreeSet<String>) {
+  match v {
+    J::Object(o) => {
+      for (k, x) in o.iter() {
+        match (k.as_str(), x) {
+          ("Matrix", J::Object(mo)) => {
+            if let Some(J::Array(rows)) = mo.get("rows") {
+              if rows.len() >= 2 { f.insert("multirow".into()); }
+              if rows.is_empty() { f.insert("empty-matrix".into()); }
+            }
+          }
+          ("FunctionCall", J::Object(fo)) => {
+            if let Some(J::Array(args)) = fo.get("args") {
+              for a in args { if let J::Array(p) = a { if p.len() == 2 && !p[0].is_null() { f.insert("named-arg".into()); } } }
+            }
+          }
+          ("increment", x) if !x.is_null() => { f.insert("range-inc".into()); }
+          ("Map", J::Object(mo)) => { if let Some(J::Array(e)) = mo.get("elements") { if e.is_empty() { f.insert("empty-map".into()); } } }
+          ("Record", J::Array(_)) => { f.insert("kind-record".into()); }
+          ("Table", J::Array(_)) => { f.insert("kind-table".into()); }
+          ("Table", J::Object(to)) => { if to.contains_key("header") { f.insert("table-literal".into()); } else { f.insert("md-table".into()); } }
+          ("TupleStruct", J::Object(to)) => { if to.contains_key("value") { f.insert("tuple-struct-value".into()); } }
+          ("Tuple", J::Object(to)) => { if let Some(J::Array(e)) = to.get("elements") { if e.len() == 1 { f.insert("tuple1".into()); } if e.is_empty() { f.insert("tuple0".into()); } } }
+          ("MechCode", J::Array(items)) | ("code", J::Array(items)) => {
+            for it in items { if let J::Array(p) = it { if p.len() == 2 && !p[1].is_null() { f.insert("trailing-comment".into()); } } }
+            if items.len() >= 2 { f.insert("multi-statement".into()); }
+          }
+          ("Complex", J::Object(co)) => {
+            if let Some(J::Object(im)) = co.get("imaginary") { if let Some(J::Object(n)) = im.get("number") { if n.contains_key("Negated") { f.insert("complex-neg-imag".into()); } } }
+          }
+          _ => {}
+        }
+        features(x, f);
+      }
+    }
+    J::Array(a) => for x in a { features(x, f); },
+    J::String(s) => {
+      if let Some(rest) = s.strip_prefix("String:") {
+        if rest.chars().any(|c| c == '"' || c == '\\' || c == '\n' || c == '\t' || c == '\r') { f.insert("str-special".into()); }
+      }
+    }
+    _ => {}
+  }
+}
+
+fn clip(s: &str) -> String { s.chars().take(160).collect() }
+
+fn first_diff(a: &J, b: &J, path: &mut String) -> Option<(String, String, String)> {
+  if a == b { return None; }
+  match (a, b) {
+    (J::Object(x), J::Object(y)) => {
+      let kx: Vec<&String> = x.keys().collect(); let ky: Vec<&String> = y.keys().collect();
+      if kx != ky { return Some((path.clone(), clip(&format!("{{{}}}", kx.iter().map(|s| s.as_str()).collect::<Vec<_>>().join(","))), clip(&format!("{{{}}}", ky.iter().map(|s| s.as_str()).collect::<Vec<_>>().join(","))))); }
+      for k in kx {
+        let l = path.len(); path.push('/'); path.push_str(k);
+        if let Some(d) = first_diff(&x[k], &y[k], path) { return Some(d); }
+        path.truncate(l);
+      }
+      None
+    }
+    (J::Array(x), J::Array(y)) => {
+      for i in 0..x.len().min(y.len()) {
+        let l = path.len(); path.push_str(&format!("/{}", i));
+        if let Some(d) = first_diff(&x[i], &y[i], path) { return Some(d); }
+        path.truncate(l);
+      }
+      Some((path.clone(), format!("len {}", x.len()), format!("len {}", y.len())))
+    }
+    _ => Some((path.clone(), clip(&a.to_string()), clip(&b.to_string()))),
+  }
+}
+
+fn tree_json(t: &Program) -> J { strip(&serde_json::to_value(t).unwrap_or(J::Null)) }
 
 pub fn mode_format(j: &J) -> String {
   let src = j["src"].as_str().unwrap_or("");
@@ -115,12 +171,18 @@ pub fn mode_format(j: &J) -> String {
     Ok(Err(_)) => return "(perr)".to_string(),
     Err(_) => return "(panic parse)".to_string(),
   };
+  let j1 = tree_json(&tree1);
+  let mut fs: BTreeSet<String> = BTreeSet::new();
+  features(&j1, &mut fs);
+  let mut c1: BTreeMap<String, i64> = BTreeMap::new();
+  census(&j1, &mut c1);
+  for k in c1.keys() { fs.insert(k.clone()); }
+  let feat = fs.iter().cloned().collect::<Vec<_>>().join(" ");
   let text1 = match catch_unwind(AssertUnwindSafe(|| Formatter::new().format(&tree1))) {
     Ok(t) => t,
-    Err(_) => return "(fmt-panic)".to_string(),
+    Err(_) => return format!("(fmt-panic (feat {}))", feat),
   };
-  let n1 = normalise(&format!("{:#?}", tree1));
-  let d1 = fnv(&n1);
+  let d1 = fnv(&j1.to_string());
   let t1 = text1.clone();
   let (reparse, tree2) = match catch_unwind(move || parser::parse(&t1)) {
     Ok(Ok(t)) => ("ok", Some(t)),
@@ -129,28 +191,22 @@ pub fn mode_format(j: &J) -> String {
   };
   let mut same = 0; let mut idem = 0; let mut d2 = 0u64;
   let mut delta = String::new();
-  let mut diff = ("".to_string(), "".to_string());
+  let mut diff = (String::new(), String::new(), String::new());
   let mut text2 = String::new();
   if let Some(t2) = &tree2 {
-    let n2 = normalise(&format!("{:#?}", t2));
-    d2 = fnv(&n2);
-    if n1 == n2 { same = 1; } else {
-      let mut a = n1.lines(); let mut b = n2.lines();
-      loop {
-        match (a.next(), b.next()) {
-          (Some(x), Some(y)) => if x != y { diff = (x.trim().to_string(), y.trim().to_string()); break; },
-          (Some(x), None) => { diff = (x.trim().to_string(), "<end>".to_string()); break; }
-          (None, Some(y)) => { diff = ("<end>".to_string(), y.trim().to_string()); break; }
-          (None, None) => break,
-        }
-      }
-      let c1 = census(&n1); let c2 = census(&n2);
+    let j2 = tree_json(t2);
+    d2 = fnv(&j2.to_string());
+    if j1 == j2 { same = 1; } else {
+      let mut p = String::new();
+      if let Some(d) = first_diff(&j1, &j2, &mut p) { diff = d; }
+      let mut c2: BTreeMap<String, i64> = BTreeMap::new();
+      census(&j2, &mut c2);
       let mut keys: Vec<&String> = c1.keys().chain(c2.keys()).collect();
       keys.sort(); keys.dedup();
       let mut parts: Vec<String> = vec![];
       for k in keys {
-        let dlt = c2.get(k).cloned().unwrap_or(0) - c1.get(k).cloned().unwrap_or(0);
-        if dlt != 0 && parts.len() < 16 { parts.push(format!("({} {})", k, dlt)); }
+        let dl = c2.get(k).cloned().unwrap_or(0) - c1.get(k).cloned().unwrap_or(0);
+        if dl != 0 && parts.len() < 16 { parts.push(format!("({} {})", k, dl)); }
       }
       delta = parts.join(" ");
     }
@@ -159,7 +215,11 @@ pub fn mode_format(j: &J) -> String {
       Err(_) => { text2 = "<fmt-panic>".to_string(); }
     }
   }
-  let clip = |s: &str| -> String { let v: String = s.chars().take(200).collect(); v };
-  format!("(fmt {} {} {} {} {} {} (delta {}) (diff {} {}) {})", qstr(&text1), reparse, same, idem, d1, d2, delta,
-    qstr(&clip(&diff.0)), qstr(&clip(&diff.1)), qstr(&text2))
+  format!("(fmt {} {} {} {} {} {} (feat {}) (delta {}) (diff {} {} {}) {})", qstr(&text1), reparse, same, idem, d1, d2, feat, delta,
+    qstr(&diff.0), qstr(&diff.1), qstr(&diff.2), qstr(&text2))
+}
+
+// debugging aid (mode `format-json`): the position-free JSON of the parse tree
+pub fn dbg_json(src: &str) -> String {
+  match parser::parse(src) { Ok(t) => tree_json(&t).to_string(), Err(_) => "perr".to_string() }
 }
